@@ -6,7 +6,6 @@ import (
 	"bytes"
 	"errors"
 	"fmt"
-	"net/netip"
 	"slices"
 	"strings"
 	"testing"
@@ -27,55 +26,14 @@ type Case struct {
 	Line vp.S `json:"line"`
 }
 
-// refFields is the field grammar: cut at the first '#', split into maximal
-// runs of bytes other than space and tab.
-func refFields(line string) []string {
-	if i := strings.IndexByte(line, '#'); i >= 0 {
-		line = line[:i]
-	}
-	return strings.FieldsFunc(line, func(r rune) bool { return r == ' ' || r == '\t' })
-}
+// The field grammar and the per-line reference outcome live in internal/model
+// (shared with C08, whose per-line oracle must not be the function under test).
+type Expect = model.HostsExpect
 
-// Expect is the reference outcome of one line.
-type Expect struct {
-	Class   string // empty, nohosts, badaddr, badname, ok
-	Addr    netip.Addr
-	AddrErr string
-	Names   []string
-	BadName string
-}
+func refFields(line string) []string { return model.HostsFields(line) }
 
 // Reference computes the expected outcome of UnmarshalText.
-func Reference(line string) (e Expect) {
-	// FieldsFunc works on runes; an invalid UTF-8 byte is a rune that is not
-	// a separator, so the split is byte-exact for the two ASCII separators.
-	fs := refFields(line)
-	switch len(fs) {
-	case 0:
-		e.Class = "empty"
-		return e
-	case 1:
-		e.Class = "nohosts"
-		return e
-	}
-	a, err := netip.ParseAddr(fs[0])
-	if err != nil {
-		e.Class = "badaddr"
-		e.AddrErr = err.Error()
-		return e
-	}
-	e.Addr = a
-	for _, f := range fs[1:] {
-		if !model.Valid(f, model.KindDomain) {
-			e.Class = "badname"
-			e.BadName = f
-			return e
-		}
-		e.Names = append(e.Names, f)
-	}
-	e.Class = "ok"
-	return e
-}
+func Reference(line string) Expect { return model.HostsLine(line) }
 
 func checkLine(c Case) error {
 	line := string(c.Line)
@@ -90,6 +48,7 @@ func checkLine(c Case) error {
 	if rec.Source != "pre-set source" {
 		return fmt.Errorf("UnmarshalText(%s) set Source to %q", vp.Q(line), rec.Source)
 	}
+	vp.Scribble(input) // the caller reuses its line buffer
 	if verr := verify(line, rec, err, want); verr != nil {
 		return verr
 	}
@@ -311,10 +270,13 @@ func checkReuse(c ReuseCase) error {
 		rec.Names = make([]string, c.PreLen, max(c.PreCap, c.PreLen))
 	}
 	counts := map[int]bool{}
+	lineBuf := make([]byte, 0, 512) // one line buffer for the whole "file", as a scanner has
 	for i, l := range c.Lines {
 		line := string(l)
 		want := Reference(line)
-		err := rec.UnmarshalText([]byte(line))
+		lineBuf = append(lineBuf[:0], line...)
+		err := rec.UnmarshalText(lineBuf)
+		vp.Scribble(lineBuf)
 		if verr := verify(line, &rec, err, want); verr != nil {
 			return fmt.Errorf("call #%d on a reused record: %w", i, verr)
 		}
